@@ -36,7 +36,7 @@ def battery(seed, n):
 
     rng = random.Random("battery/%d" % seed)
     items = []
-    kinds = ["tree", "doc", "doc", "textdoc", "headc", "jsx", "css", "classes", "attrs", "typed_attrs", "jsonmode", "retry", "shared", "longtwin", "dyninst", "bigrepr", "headc_list", "headc_big", "doccopy", "root_reuse", "saved_then_rendered"]
+    kinds = ["tree", "doc", "doc", "textdoc", "headc", "jsx", "css", "classes", "attrs", "typed_attrs", "jsonmode", "retry", "shared", "longtwin", "dyninst", "bigrepr", "headc_list", "headc_big", "doccopy", "root_reuse", "saved_then_rendered", "unordered"]
     for i in range(n):
         k = kinds[i % len(kinds)]
         if k == "tree":
@@ -87,6 +87,9 @@ def battery(seed, n):
         elif k == "bigrepr":
             # short-lived self-rendering objects with large markup, one after the other (addresses get re-used)
             items.append((k, {"sizes": [rng.choice([100, 2047, 2048, 3000, 5000, 70000]) for _ in range(rng.randint(3, 8))], "n": i}))
+        elif k == "unordered":
+            # unordered collections of strings where a value is expected: accepted or refused, the outcome is the same in every process
+            items.append((k, {"tokens": rng.sample(["btn", "btn-primary", "active", "shadow", "rounded", "w-100", "mt-3", "lead", "x", "y"], rng.randint(4, 8)), "n": i}))
         elif k == "headc_list":
             items.append((k, {"n": i % 4, "extra": rng.randint(1, 3)}))
         elif k == "headc_big":
@@ -167,6 +170,20 @@ def _run_item(kind, r):
             except Exception as e:
                 return {"html": "raised " + type(e).__name__}
         return {"html": _d(str(t) + "|" + t.render()["html"] + "|" + str(ht.TagList(o, "x").tagify()))}
+    if kind == "unordered":
+        toks = r["tokens"]
+        outs = []
+        for mk in (lambda: ht.div(ht.span("x", class_=set(toks)), id="a"), lambda: ht.div(frozenset(toks)), lambda: ht.div({"class": set(toks)}),
+                   lambda: ht.div().add_class(set(toks)), lambda: ht.div(set(toks), "tail"), lambda: ht.TagList(set(toks)),
+                   lambda: ht.div(data_x=dict.fromkeys(toks).keys()),
+                   lambda: ht.div(aria_describedby=tuple(toks)), lambda: ht.div(class_=list(toks)),
+                   lambda: ht.HTMLDocument(ht.div("x"), class_=set(toks)).render()["html"], lambda: ht.div().add_style(frozenset(toks)),
+                   lambda: ht.head_content(set(toks)).name):
+            try:
+                outs.append(str(mk()))
+            except Exception as e:
+                outs.append("raised " + type(e).__name__)
+        return {"html": _d("|".join(outs))}
     if kind == "bigrepr":
         outs, ok = [], True
         for j, size in enumerate(r["sizes"]):
@@ -629,11 +646,13 @@ def run(ctx):
     by_name, by_html = {}, {}
     corpus = 0
     for _ in range(300 if not ctx.thorough else 3000):
-        p = [gen.TAG(crng.choice(["title", "meta", "link", "style"]), {"k": "text", "s": crng.choice(["a", "b", "a ", "A", "é", "e\u0301", "Å", "A\u030a", "ﬁ", "fi", "<x>", ""])},
+        p = [gen.TAG(crng.choice(["title", "meta", "link", "style"]), {"k": "text", "s": crng.choice(["a", "b", "a ", "A", "é", "e\u0301", "Å", "A\u030a", "ﬁ", "fi", "<x>", "",
+                                                                                                     # (contents that differ only in a line separator are different contents)
+                                                                                                     "a\nb", "a\r\nb", "a\rb", "a b", "a\u2028b", "a\x0cb", "a\x85b", "a\n", "\na", "a\r\n"])},
                      attrs=[["name", {"t": "str", "s": crng.choice(["n", "m", "n "])}]][: crng.randint(0, 1)], ws=crng.random() < 0.5)
              for _ in range(crng.randint(0, 2))]
         if crng.random() < 0.3:
-            p.append({"k": "html", "s": crng.choice(["<x>", "<y>", "<x> "])})
+            p.append({"k": "html", "s": crng.choice(["<x>", "<y>", "<x> ", "<x>\n", "<x>\r\n", "<x>\r", "<x>\n\n"])})
         if crng.random() < 0.25:
             # a dependency inside the payload is invisible in the rendered content, so it must not influence the name
             p.insert(crng.randint(0, len(p)), {"k": "dep", "name": crng.choice(["nd1", "nd2"]), "version": "1.0", "script": [{"src": "n.js"}]})
